@@ -201,16 +201,22 @@ def classify(case, impl, model):
             if b == "0":
                 bad.append("%s: %s" % (sid, nm))
     mbad = "0" in "".join(t.partition("=")[2][:3] for t in mv.split())
-    if bad and not mbad:
-        return "P", "accounting stream violates the property: " + "; ".join(sorted(set(bad)))
+    diff = ""
     if ic != mc:
         ig, mg = ic.split("] "), mc.split("] ")
         k = next((i for i, (x, y) in enumerate(zip(ig, mg)) if x != y), min(len(ig), len(mg)))
-        return "P", "accounting calls differ from the proved behaviour at op #%d: impl=%s] model=%s]" % (
-            k, ig[k] if k < len(ig) else "?", mg[k] if k < len(mg) else "?")
+        diff = "accounting calls differ from the proved behaviour at op #%d: impl=%s] model=%s]" % (
+            k, ig[k].rstrip("]") if k < len(ig) else "?", mg[k].rstrip("]") if k < len(mg) else "?")
+    elif idump != mdump:
+        diff = "component state differs after the history: impl=%r model=%r" % (idump, mdump)
     if not ic.startswith("["):
-        return "G", "harness did not run the case: impl=%r model=%r" % (impl[:200], model[:200])
-    return "G", "component state differs after the history: impl=%r model=%r" % (idump, mdump)
+        return "G", "harness did not complete the history (panic / hang / bad case): impl=%r model=%r" % (impl[:200], model[:200])
+    if bad and not mbad:
+        return "P", "accounting stream violates the property (" + "; ".join(sorted(set(bad))) + ")" + (
+            "; " + diff if diff else "")
+    if ic != mc:
+        return "P", diff
+    return "G", diff or "outputs differ: impl=%r model=%r" % (impl[:200], model[:200])
 
 
 def signature(case, impl, models):
